@@ -953,16 +953,24 @@ def default_of_base(fam, f, ):
     raise ValueError(t)
 
 
-def defaults(fam, declname):
+def defaults(fam, declname, overrides=None):
+    """Default value tree of a declaration, with keyword overrides of top-level fields.
+    A described (AutoLength) field reads as the length of its tracked field unless overridden."""
     decl = fam["decls"][declname]
     pv = PV(declname)
+    overrides = overrides or {}
     for f in decl["fields"]:
         if f["t"] == "em":
             continue
-        if "rep" in f:
+        if f["name"] in overrides:
+            pv.vals[f["name"]] = overrides[f["name"]]
+        elif "rep" in f:
             pv.vals[f["name"]] = copy_val(f["rep"].get("default", []))
         elif "opt" in f:
             pv.vals[f["name"]] = copy_val(f["opt"].get("default", None))
         else:
             pv.vals[f["name"]] = default_of_base(fam, f)
+    for f in decl["fields"]:
+        if "describe" in f and f["name"] not in overrides:
+            pv.vals[f["name"]] = len(pv.vals[f["describe"]["of"]])
     return pv
